@@ -175,8 +175,8 @@ CHECKS["C16"] = {
                   "the statemc alphabets (monitors only).",
     "level_note": "'After which' is read literally: bytes offered before tunnel mode is entered are not judged by (ii). Refused CONNECT followed by non-HTTP bytes is outside the statement.",
     "design_ref": "DESIGN.md §6 C16",
-    "rule": "scenario product x cut windows x all legal interleavings; distinct = distinct callback traces",
-    "bounds": {"quick": "cut windows +-3, all interleavings (<=6 per chunking), plain + ASan", "thorough": "same product (the space is small and fully enumerated in both tiers) + statemc macro depth 6 with the CONNECT tokens"},
+    "rule": "scenario product x (request cut position or none) x (response cut position or none) x all legal interleavings; distinct = distinct callback traces",
+    "bounds": {"quick": "no cut or one cut at EVERY position of each stream (full product request cut x response cut), all interleavings (<=6 per chunking), plain + ASan: 6.9e5 executions", "thorough": "same product (fully enumerated in both tiers) + statemc macro depth 6 with the CONNECT tokens"},
     "mc_explanation": "states = distinct callback traces, transitions = data calls on the real parser",
     "assumptions": ["IDS personality", "QUICK_START hand-over as implemented in mc/hx_run.c"],
     "jobs": lambda tier: [J("cutmc", "plain", ["--mode", "tunnel"]), J("cutmc", "asan", ["--mode", "tunnel"])] +
